@@ -446,3 +446,52 @@ def c16(run):
     run.add_samples(oks[:2])
     run.assumptions = [SYMBOLIC, 'text is abstracted to six byte classes; representatives: "-", " ", TAB, CR, LF, "a" / e-acute']
     run.notes['trusted_base'] = TRUSTED
+
+
+# ---------------------------------------------------------------------------
+# C06  signature completeness
+
+@prop('C06', 'model_checking')
+def c06(run):
+    # the canonicalisation machines agree with each other (C14's model) ...
+    run.mc('MCTextCanon', textcanon_cfg(run.q(7, 9), [2, 3]), name='mc_textcanon')
+    # ... and every applicable (sign interface, verify interface) pair hashes the same octets
+    cfgtxt = lambda n, inv: f"CONSTANTS\n  MaxLen = {n}\n  SignerTrims = TRUE\nSPECIFICATION Spec\nINVARIANTS {inv}\nCHECK_DEADLOCK FALSE\n"
+    run.mc('MCSigIfaces', cfgtxt(run.q(6, 7), 'Complete NoEarlyTerminator TextSurvives SignerVerifierAgree'), name='mc_ifaces', timeout=run.q(300, 2400))
+    run.mc('MCSigIfaces', cfgtxt(3, 'Complete').replace('SignerTrims = TRUE', 'SignerTrims = FALSE'), name='sens_cleartext_signer_untrimmed', expect_violation='Complete')
+    n_gen = run.q(4, 5)
+    g = run.mc('MCSigIfaces', cfgtxt(n_gen, 'GenText GenPairs'), name='gen', workers=1, count=False, timeout=900)
+    cases = g.cases
+    # random long texts with CR/LF at the 512/8192 edges (and ending exactly on them); TLC evaluates the oracle
+    longs = long_text_inputs(run.seed ^ 0xC06, run.q(12, 40), run.tier)
+    for L in (512, 1024, 1536) + ((8192,) if run.tier == 'thorough' else ()):
+        base = [random.Random(run.seed + L).choice('XXXXXCL') for _ in range(L)]
+        longs.append({'s': base[:-1] + ['C']})
+        longs.append({'s': base[:-2] + ['C', 'L']})
+    ipath = os.path.join(run.work, 'long_inputs.ndjson')
+    vlib.write_ndjson(ipath, longs)
+    ev = vlib.tlc('EvalSigIfaces', cfg_text='SPECIFICATION EvalSpec\nCHECK_DEADLOCK FALSE\n', name='eval_long_C06', workers=1, timeout=900,
+                  env={'VERIF_INPUTS': ipath})
+    if len(ev.cases) != len(longs):
+        raise vlib.ToolError('EvalSigIfaces returned %d of %d cases' % (len(ev.cases), len(longs)))
+    cases = cases + ev.cases
+    if run.replay and run.replay.get('source_case'):
+        cases = [run.replay['source_case']] + [c for c in cases if c.get('kind') == 'pairs']
+    for i, c in enumerate(cases):
+        c['ci'] = i
+    body, summary, oks = run.harness('c06', cases, timeout=3300)
+    run.distinct_nontrivial = summary['extra']['nontrivial']
+    run.traces_validated = summary['evaluations']
+    run.exhaustive = True
+    run.rule = (f'SigIfaces.tla states, per signing interface and applicable verification interface, which octets are hashed (composed from the '
+                'TextCanon and Cleartext operators) and TLC checks they are equal for every text of <= 6 symbols over {dash, space, tab, CR, LF, '
+                f'other}}; TLC emits every text of <= {n_gen} symbols and the applicability matrix. The harness runs each text (representatives '
+                'a / e-acute / NUL) through detached binary+text, SignatureConfig::sign, into_hasher chunked, MessageBuilder with 1..3 signers x '
+                'binary|text x binary|utf8 literal, cleartext sign/new_many, and verifies through Signature::verify, DetachedSignature::verify '
+                '(direct, after binary and armored round trips), Message::verify_nested (binary and armored) and CleartextSignedMessage::verify '
+                '(in memory, after armor), rotating Ed25519 v4/v6, ECDSA, RSA x SHA-256/512/SHA3-256; plus certificate self-signatures. '
+                'non-trivial = texts that differ from their canonical form')
+    run.add_samples([c for c in cases if c.get('kind') == 'pairs'] + cases[200:201])
+    run.add_samples(oks[:2])
+    run.assumptions = [SYMBOLIC, 'key algorithm x hash combinations are rotated over the texts in the quick tier (all combinations for short texts in the thorough tier)']
+    run.notes['trusted_base'] = TRUSTED
